@@ -316,6 +316,7 @@ class Scratch:
     # ---- housekeeping
     def close(self):
         shutil.rmtree(self.dir, ignore_errors=True)
+        shutil.rmtree(self.dir.rstrip("/") + "-decoy", ignore_errors=True)
 
     def __enter__(self):
         return self
@@ -377,7 +378,18 @@ class Scratch:
         e.pop("GIT_WORK_TREE", None)
         for k, v in (skew or {}).items():
             e[k] = str(v)
+        if e.get("GIT_DIR") == "@decoy":
+            e["GIT_DIR"] = self.decoy_git_dir()
         return e
+
+    def decoy_git_dir(self):
+        """An empty git repository next to the scratch copy (no data/, no src/): what GIT_DIR points at when the
+        environment is skewed that way."""
+        d = self.dir.rstrip("/") + "-decoy"
+        if not os.path.isdir(os.path.join(d, ".git")):
+            os.makedirs(d, exist_ok=True)
+            subprocess.run(["git", "init", "-q", d], stdout=subprocess.DEVNULL, stderr=subprocess.DEVNULL)
+        return os.path.join(d, ".git")
 
     def run(self, script, skew=None, trace=False):
         """-> {"rc": int, "stderr": masked tail, "trace": None | {"reads": [...], "writes": [...]}}"""
